@@ -638,21 +638,43 @@ func ruleR033(c *Ctx) {
 	pkey := "parser2.Parser.Parse#opPos"
 	pinfo := info
 	var store *ast.AssignStmt
-	ast.Inspect(parse.Body, func(n ast.Node) bool {
-		if as, ok := n.(*ast.AssignStmt); ok && len(as.Lhs) == 1 {
-			if sel, ok := ast.Unparen(as.Lhs[0]).(*ast.SelectorExpr); ok && sel.Sel.Name == "opPos" {
-				store = as
+	var storeHost ast.Node = parse
+	findStore := func(body ast.Node) {
+		ast.Inspect(body, func(n ast.Node) bool {
+			if as, ok := n.(*ast.AssignStmt); ok && len(as.Lhs) == 1 {
+				if sel, ok := ast.Unparen(as.Lhs[0]).(*ast.SelectorExpr); ok && sel.Sel.Name == "opPos" {
+					store = as
+				}
 			}
-		}
-		return true
-	})
+			return true
+		})
+	}
+	findStore(parse.Body)
+	if store == nil {
+		// the set-up may live in a method of the parser that Parse calls (setupOperators)
+		ast.Inspect(parse.Body, func(n ast.Node) bool {
+			call, ok := n.(*ast.CallExpr)
+			if !ok || store != nil {
+				return true
+			}
+			if cal := Callee(info, call); cal != nil && cal.Pkg() == root.Types {
+				if hd := findFuncDecl(root, cal); hd != nil && hd.Body != nil && hd.Recv != nil && recvTypeName(hd.Recv.List[0].Type) == "Parser" && hd != parse {
+					findStore(hd.Body)
+					if store != nil {
+						storeHost = hd
+					}
+				}
+			}
+			return true
+		})
+	}
 	if store == nil {
 		c.Violation(pkey, parse.Pos(), "Parse never records the operator position of a prefix operator")
 		return
 	}
 	// enclosing range over p.operators whose key is the stored value
 	var opsLoop *ast.RangeStmt
-	for q := c.Parent(store); q != nil && q != parse; q = c.Parent(q) {
+	for q := c.Parent(store); q != nil && q != storeHost; q = c.Parent(q) {
 		if rs, ok := q.(*ast.RangeStmt); ok {
 			if sel, ok := ast.Unparen(rs.X).(*ast.SelectorExpr); ok && sel.Sel.Name == "operators" {
 				opsLoop = rs
@@ -912,6 +934,21 @@ func ruleR035(c *Ctx) {
 				// result kept: its typ has to be examined before any success return / before it is overwritten
 				mentionsTyp := func(x ast.Node, field string) bool {
 					return containsNode(x, func(y ast.Node) bool {
+						// the token handed to a pure predicate of the package whose body looks at that field: isArrow(t)
+						if call, ok := y.(*ast.CallExpr); ok && guardInline != nil {
+							if inl := guardInline(call); inl != nil {
+								if containsNode(inl, func(z ast.Node) bool {
+									sel, ok := z.(*ast.SelectorExpr)
+									if !ok || sel.Sel.Name != field {
+										return false
+									}
+									id, ok := ast.Unparen(sel.X).(*ast.Ident)
+									return ok && info.ObjectOf(id) == tokObj
+								}) {
+									return true
+								}
+							}
+						}
 						sel, ok := y.(*ast.SelectorExpr)
 						if !ok || sel.Sel.Name != field {
 							return false
